@@ -300,7 +300,7 @@ def _gen_step(rng, base_net, step):
     binputs = list(base_net.inputs)
     api = rng.choice(['connect_circuit_left', 'connect_circuit_left', 'connect_circuit_right', 'connect_circuit_right',
                       'connect_left', 'connect_right', 'connect_inputs', 'extend_left', 'extend_right', 'add_circuit'])
-    d = {'api': api, 'other': netgen.describe(onet), 'kw': kw, 'other_block': rng.random() < 0.25}
+    d = {'api': api, 'other': netgen.describe(onet), 'kw': kw, 'other_block': rng.random() < 0.25, 'oseed': rng.getrandbits(32)}
     if api == 'connect_circuit_left':
         k = rng.randint(0, len(onet.inputs)) if blabels else 0
         d['oc'] = rng.sample(list(onet.inputs), k)
@@ -345,7 +345,7 @@ def _gen_step(rng, base_net, step):
 def _apply(c, d):
     onet = netgen.from_description(d['other'])
     with monitor.suspended():
-        other = netgen.build(onet)
+        other = netgen.build(onet, rng=random.Random(d.get('oseed', 0)))  # incl. deepcopy / pickle clones
         if d.get('other_block'):
             inner = [l for l in onet.gates if onet.gates[l][0] != 'INPUT']
             if inner:
